@@ -136,6 +136,28 @@ Theorem C16_slot_fields_own : forall v w fuel ops s pend rs, run v fuel w io_ini
 Proof. exact slot_fields_own. Qed.
 Print Assumptions C16_slot_fields_own.
 
+(* the number a REFUSED cg_open leaves in the caller's variable (cgi_open_body stores n_cgns_files + file_number_offset through fn
+   as soon as cgio_open_file has succeeded; a refusal behind that -- wrong version, broken tree -- returns CG_ERROR with the
+   number still there): from ANY table it resolves to nothing and cg_close refuses it without touching the table ... *)
+Theorem C16_failed_open_number_dead : forall m oc m' fn,
+  cg_open MCur m oc = (m', None) -> fn_left m oc = Some fn ->
+  cgi_get_file m' fn = None /\ forall ok, cg_close MCur m' fn ok = (m', false).
+Proof. exact failed_open_number_dead. Qed.
+Print Assumptions C16_failed_open_number_dead.
+
+(* ... and after any further opens and closes it still resolves to nothing *)
+Theorem C16_failed_open_number_never_resolves : forall m oc m' fn live ops m'' live'',
+  cg_open MCur m oc = (m', None) -> fn_left m oc = Some fn ->
+  mh_run MCur m' live ops = (m'', live'') -> cgi_get_file m'' fn = None.
+Proof. exact failed_open_number_never_resolves. Qed.
+Print Assumptions C16_failed_open_number_never_resolves.
+
+(* before def473d a refused open returned with the entry in place: its number resolved *)
+Theorem C16_failed_open_number_alive_old_refuted :
+  exists m', cg_open MOld mll_init OLateFail = (m', None) /\ fn_left mll_init OLateFail = Some 1 /\ cgi_get_file m' 1 = Some 0.
+Proof. exact failed_open_number_alive_old. Qed.
+Print Assumptions C16_failed_open_number_alive_old_refuted.
+
 (* ---- non-vacuity: eight files open at once (slot reuse, growth of all three tables, a failing and a late-failing open) *)
 Example C16b_example_cgio_adf :
   exists s live, hrun 1000 w8 io_init [] ops8 = Some (s, live) /\ length live = 8 /\ length (iol s) = 8 /\
